@@ -412,6 +412,16 @@ func (e *env) hostile(class, state string, lines []string, descShort string) {
 			e.leak(sig, descShort, "server made no progress on hostile input (spinning or stuck)")
 			return
 		}
+		if strings.HasPrefix(class, "literal-cap") {
+			// every literal announced in these probes is over the cap for its position: a
+			// continuation request would invite the client to send octets the server has to
+			// buffer (or, for APPEND, to read although the size is over the limit)
+			for _, l := range bytes.Split(out, []byte("\r\n")) {
+				if bytes.HasPrefix(l, []byte("+")) {
+					w.Violation("continuation-request-for-oversized-literal@"+strings.Fields(ln + " ?")[0], fmt.Sprintf("%s: the server answered an over-the-cap literal with a continuation request %q", descShort, l), map[string]interface{}{"lines": hx.Hex([]byte(ln), 200)})
+				}
+			}
+		}
 		if cond == "closed" {
 			break
 		}
